@@ -12,14 +12,18 @@
 EXTENDS Radix, Json, CSV, IOUtils
 
 CONSTANTS MaxLen,      \* longest insertion sequence explored
-          DumpCases    \* TRUE: write one JSON line per reachable state to IOEnv.OUT_FILE
+          DumpCases,   \* TRUE: write one JSON line per reachable state to IOEnv.OUT_FILE
+          Uni          \* "full": 72 patterns; "small": a 32-pattern sub-universe (hosts b, ab, a.b, b.b; ports none / *),
+                       \* explored one insertion deeper for the same budget
 
 a == 97
 b == 98
 
-PatHosts == << <<b>>, <<a,b>>, <<a,DOT,b>>, <<b,DOT,b>>, <<a,b,DOT,b>>, <<a,DOT,a,DOT,b>> >>
+PatHosts == IF Uni = "small"
+              THEN << <<b>>, <<a,b>>, <<a,DOT,b>>, <<b,DOT,b>> >>
+              ELSE << <<b>>, <<a,b>>, <<a,DOT,b>>, <<b,DOT,b>>, <<a,b,DOT,b>>, <<a,DOT,a,DOT,b>> >>
 Schemes  == << "s", "t" >>
-PatPorts == << NoPort, 1, AnyPort >>
+PatPorts == IF Uni = "small" THEN << NoPort, AnyPort >> ELSE << NoPort, 1, AnyPort >>
 NPat     == Len(PatHosts) * Len(Schemes) * Len(PatPorts) * 2
 
 PatAt(i) ==
